@@ -311,6 +311,25 @@ def job_line_numbers(module, bi):
     return acc
 
 
+@worker
+def job_repetition_texts(module, what_index):
+    """The repetition family of mc.gen as plain texts (one construct 1..12 times), also with the last line removed and with an unexpected line appended."""
+    import importlib
+    from . import gen as G
+    from . import docmodel as M
+    mod = importlib.import_module(module)
+    acc = Acc()
+    t = ''
+    for (what, n), f in G.repetition_documents():
+        if what != G.REPEATABLE[what_index]:
+            continue
+        t = M.render(f)[0]
+        for v in (t, t[:-1], t.rsplit('\n', 2)[0] + '\n', t + 'zzz\n', t + '  @dangling\n'):
+            mod.check_text(v, acc)
+    acc.sample({'text': t[-300:]})
+    return acc
+
+
 def edit_jobs(mod, max_chars):
     return [job_edits.job(mod, max_chars, bi) for bi in range(len(edit_bases(max_chars)))]
 
@@ -322,6 +341,8 @@ def run_levels(ctx, mod, k_full, k_core):
     ctx.level('rare-line alphabet K<=2', level_jobs(mod, 'rare', 2))
     mc = ctx.pick(250, 1500)
     ctx.level('single edits of corpus and base documents <= %d characters' % mc, edit_jobs(mod, mc))
+    from . import gen as G
+    ctx.level('one construct repeated 1..12 times, as text', [job_repetition_texts.job(mod, i) for i in range(len(G.REPEATABLE))])
     ctx.level('documents pushed down by 8..1000 lines', [job_line_numbers.job(mod, bi) for bi in range(len(edit_bases(700)))])
     for k in range(k_full + 1, k_core + 1):
         ctx.level('core-alphabet K=%d' % k, level_jobs(mod, 'core', k))
